@@ -185,6 +185,9 @@ EXTRA = [
     ("ATTENDEE;ROLE=B:mailto:x", "ATTENDEE", {"ROLE": "B"}, "mailto:x", False),
     ("ORGANIZER;CN=C:mailto:x", "ORGANIZER", {"CN": "C"}, "mailto:x", False),
     ("dtstart;tzid=Zone:v", "dtstart", {"tzid": "Zone"}, "v", False),
+    ("DTSTART;TZID=Etc/GMT+5:v", "DTSTART", {"TZID": "Etc/GMT+5"}, "v", False),
+    ("RDATE;TZID=Etc/GMT-5:v", "RDATE", {"TZID": "Etc/GMT-5"}, "v", False),
+    ("DTEND;TZID=America/New_York:v", "DTEND", {"TZID": "America/New_York"}, "v", False),
     ("RDATE;TZID=/Zone:v", "RDATE", {"TZID": "/Zone"}, "v", False),
     ("FREEBUSY:a,BADb", "FREEBUSY", {}, "a,BADb", False),
     ("FREEBUSY:BADa,b", "FREEBUSY", {}, "BADa,b", False),
@@ -195,7 +198,7 @@ EXTRA = [
 ]
 
 
-KNOWN_TZIDS = {"Z", "Europe/Berlin", "UTC"}     # ids the (modelled) provider knows; others need a VTIMEZONE
+KNOWN_TZIDS = {"Z", "Europe/Berlin", "UTC", "Etc/GMT+5", "Etc/GMT-5", "America/New_York"}     # ids the (modelled) provider knows; others need a VTIMEZONE
 
 
 def _resolves(tzid, cached_ids):
@@ -349,6 +352,8 @@ def explore(ctx, max_len, extra_sequences=True):
              "dtstart;tzid=Zone:v", "RDATE;TZID=/Zone:v", "END", "END"],
             ["BEGIN:VCALENDAR", "begin:vevent", "dtstart;tzid=Zone:v", "END", "BEGIN:VTIMEZONE", "TZID:Zone",
              "END:VTIMEZONE", "begin:vevent", "dtstart;tzid=Zone:v", "dtstart;tzid=Z:v", "END", "END"],
+            ["BEGIN:VTODO", "DTSTART;TZID=Etc/GMT+5:v", "RDATE;TZID=Etc/GMT-5:v", "DTEND;TZID=America/New_York:v",
+             "END"],
             ["begin:vevent", "SUMMARY:a", "FREEBUSY:a,BADb", "COMMENT:x", "END"],
             ["begin:vevent", "FREEBUSY:BADa,b", "FREEBUSY;TZID=Z:a,b", "END"],
             ["BEGIN:VTODO", "FREEBUSY:a,BADb", "END"],
@@ -519,6 +524,68 @@ def tzid_probe(ctx):
         out[nm.upper() if not nm.islower() else nm] = tuple(res)
     _CACHE[key] = out
     return out
+
+
+RFC_VALUE_SAMPLES = {
+    "DATE": ["20240101", "20240101,20240329,20240401"],
+    "DATE-TIME": ["20240101T120000Z", "20240101T120000,20240102T120000"],
+    "DURATION": ["PT1H", "PT1H,P1D"], "INTEGER": ["3", "1,2,3"], "FLOAT": ["1.5", "1.5,-2.25"],
+    "PERIOD": ["20240101T000000Z/PT1H", "20240101T000000Z/PT1H,20240102T000000Z/20240102T010000Z"],
+    "TIME": ["120000", "120000,130000Z"], "BOOLEAN": ["TRUE"], "UTC-OFFSET": ["+0100"],
+    "RECUR": ["FREQ=DAILY;COUNT=2"], "URI": ["http://example.com/a,b"], "CAL-ADDRESS": ["mailto:a@example.com"],
+    "TEXT": ["a\\, b", "a,b"],
+}
+
+
+def value_probe(ctx):
+    """Does the parse loop let the VALUE parameter choose the codec of a property without an
+    RFC type?  If so, every RFC-valid value form of that type (single values and the comma
+    lists RFC 5545 3.1.2 allows) must be accepted by the codec that is chosen - otherwise a
+    well-formed line is dropped or fails the parse.
+    -> (n probes, [(value type, codec class, sample, exception)])"""
+    model = ctx.model
+    cls = model.cls("cal.Component")
+    bad = []
+    n = 0
+    chosen = {}
+    for vt in [None] + sorted(RFC_VALUE_SAMPLES):
+        params = {"VALUE": vt} if vt else {}
+        seq = [("b", "BEGIN", {}, "VTODO", False), ("p", "X-PROBE", params, "v", False),
+               ("e", "END", {}, "VTODO", False)]
+        it = ParseInterp(model)
+        objs = [mk_line(it, nm, p, v, b) for (_, nm, p, v, b) in seq]
+        term = Obj(model.cls("parser.Contentline"))
+        term.strval = ""
+        term.attrs["_pl_parts"] = ("", {}, "")
+        objs.append(term)
+        f = model.lookup_method(cls, "from_ical")
+        try:
+            it.call(Closure(f), [ClassVal(cls), objs], {})
+        except AbsRaise:
+            pass
+        except Unsupported as e:
+            raise AnalysisError(f"parse loop leaves the abstract interface on X-PROBE;VALUE={vt}: {e}")
+        codecs = [c[2] for c in it.log if c[0] == "codec" and c[1].upper() == "X-PROBE"]
+        chosen[vt] = codecs[-1] if codecs else None
+        n += 1
+    default = chosen[None]
+    from .absint import Interp as _Interp
+    for vt, cname in sorted((k, v) for k, v in chosen.items() if k):
+        if cname == default or cname is None:
+            continue
+        ci = next((c for c in model.all_classes() if c.name == cname and c.module.short == "prop"), None)
+        if ci is None:
+            continue
+        for sample in RFC_VALUE_SAMPLES[vt]:
+            it = _Interp(model)
+            n += 1
+            try:
+                it.call(it.getattr(ClassVal(ci), "from_ical"), [sample], {})
+            except AbsRaise as e:
+                bad.append((vt, cname, sample, e.cls_name))
+            except Unsupported as e:
+                raise AnalysisError(f"{cname}.from_ical({sample!r}) leaves the abstract interface: {e}")
+    return n, bad, {k: v for k, v in chosen.items()}
 
 
 def case_probe(ctx):
